@@ -211,11 +211,17 @@ func intRange(r *object.PanRange, n int64) object.PanObject {
 }
 
 func strRange(r *object.PanRange, runes []rune) object.PanObject {
-	runeArr := valRange(r, len(runes), func(i int64) object.PanObject {
+	res := valRange(r, len(runes), func(i int64) object.PanObject {
 		return strIndex(i, runes)
 	})
+	runeArr, ok := res.(*object.PanArr)
+	if !ok {
+		// NOTE: error is raised (i.e. step is 0)
+		return res
+	}
+
 	var out bytes.Buffer
-	for _, elem := range runeArr.(*object.PanArr).Elems {
+	for _, elem := range runeArr.Elems {
 		out.WriteString(elem.(*object.PanStr).Value)
 	}
 	return object.NewPanStr(out.String())
